@@ -7,6 +7,7 @@ package main
 
 import (
 	"fmt"
+	"go/ast"
 	"go/token"
 	"go/types"
 
@@ -196,4 +197,66 @@ func (vc *VC) constLike(t Term, v int64) Term {
 		return BVConstI(v, t.S.N, true)
 	}
 	return vc.idx(v)
+}
+
+// delegateCall: the enclosing function's contract says `delegates F(e1, ..., en)`. A call of F from its body
+// is checked argument by argument against the expected expressions (evaluated at entry) and not executed:
+// F has its own contract and its own check.
+func (vc *VC) delegateCall(fr *Frame, st *State, fn *ssa.Function, args []Val, pos token.Pos) ([]Outcome, bool) {
+	ce, ok := fr.contract.Delegates.Go.(*ast.CallExpr)
+	if !ok {
+		panic(specError{"delegates: not a call expression"})
+	}
+	want := exprString(ce.Fun)
+	name := fn.Name()
+	if fn.Pkg != nil {
+		name = fn.Pkg.Pkg.Name() + "." + fn.Name()
+	}
+	if want != name && want != fn.Name() {
+		return nil, false
+	}
+	st.delegCalls++
+	props := vc.curProps
+	env := &SpecEnv{vc: vc, fr: fr, st: st, old: fr.entrySt, pkg: fr.fn.Pkg}
+	if env.old == nil {
+		env.old = st
+	}
+	if len(ce.Args) != len(args) {
+		vc.addObligation(st, "post", "delegates.arity", vc.posOf(pos), TFalse(), props)
+	} else {
+		for i, a := range ce.Args {
+			if id, ok := a.(*ast.Ident); ok && id.Name == "_" {
+				continue // not constrained by the property (e.g. the degree of parallelism)
+			}
+			exp := env.expr(a, fr.contract.Delegates.Subs)
+			vc.addObligation(st, "post", fmt.Sprintf("delegates.argument-%d", i+1), vc.posOf(pos), vc.sameArg(exp.V, args[i]), props)
+		}
+	}
+	var rets []Val
+	res := fn.Signature.Results()
+	for i := 0; i < res.Len(); i++ {
+		rets = append(rets, vc.fresh(res.At(i).Type(), fmt.Sprintf("%s.result%d", fn.Name(), i), st))
+	}
+	return one(st, rets...), true
+}
+
+func (vc *VC) sameArg(a, b Val) Term {
+	switch x := a.(type) {
+	case FuncVal:
+		y, ok := b.(FuncVal)
+		return TBool(ok && x.Fn != nil && x.Fn == y.Fn && len(x.Bind) == 0 && len(y.Bind) == 0)
+	case SymIface:
+		y, ok := b.(SymIface)
+		if !ok {
+			return TFalse()
+		}
+		return Eq(x.T, y.T)
+	case Term:
+		y, ok := b.(Term)
+		if !ok {
+			return TFalse()
+		}
+		return Eq(x, y)
+	}
+	return vc.eqVal(a, b)
 }
